@@ -292,18 +292,75 @@ fn frame_geometry_case(gss: u32) {
 // @prop C01
 // @tier quick
 // @unit jxl_frame::FrameHeader::{sample_width,sample_height,color_sample_width,num_groups,num_lf_groups,groups_per_row,lf_groups_per_row,group_size_for,lf_group_size_for,lf_group_idx_from_group_idx,group_idx_from_coord,is_group_collides_region,is_lf_group_collides_region}
-// @sym frame width,height in 1..=2^30 with area <= 2^40 (the limits Frame::parse enforces), upsampling {1,2,4,8}, lf_level 0..=4, group_size_shift 0..=3, any group index below num_groups, any coordinates and regions below 2^30
-// @bound complete within the validated header ranges
-// @assume the header satisfies the checks of Frame::parse (transcribed: w,h <= 2^30, w*h <= 2^40)
+// @sym frame width,height in three boxes inside the limits Frame::parse enforces (2^20 x 2^20, 2^30 x 2^10, 2^10 x 2^30; area <= 2^40), upsampling {1,2,4,8}, lf_level 0..=4, group_size_shift 0 (one harness per group size: constant divisors), any group index below num_groups, any coordinates and regions below 2^30
+// @bound the three boxes (frames with w*h <= 2^40 outside them, e.g. 2^25 x 2^15, are not covered: the product bound itself is SAT-hard)
+// @assume the header satisfies the checks of Frame::parse (w,h <= 2^30, w*h <= 2^40)
 // @oblig totality only: no arithmetic overflow, division by zero or other panic in a checked build; counts are at least 1
 #[kani::proof]
-#[kani::unwind(2)]
-pub fn c01_frame_geometry_total() {
+#[kani::unwind(6)]
+pub fn c01_frame_geometry_total_gss0() {
+    frame_geometry_total_case(0, 0);
+    frame_geometry_total_case(0, 1);
+    frame_geometry_total_case(0, 2);
+}
+
+// @prop C01
+// @tier quick
+// @unit jxl_frame::FrameHeader::{sample_width,sample_height,color_sample_width,num_groups,num_lf_groups,groups_per_row,lf_groups_per_row,group_size_for,lf_group_size_for,lf_group_idx_from_group_idx,group_idx_from_coord,is_group_collides_region,is_lf_group_collides_region}
+// @sym frame width,height in three boxes inside the limits Frame::parse enforces (2^20 x 2^20, 2^30 x 2^10, 2^10 x 2^30; area <= 2^40), upsampling {1,2,4,8}, lf_level 0..=4, group_size_shift 1 (one harness per group size: constant divisors), any group index below num_groups, any coordinates and regions below 2^30
+// @bound the three boxes (frames with w*h <= 2^40 outside them, e.g. 2^25 x 2^15, are not covered: the product bound itself is SAT-hard)
+// @assume the header satisfies the checks of Frame::parse (w,h <= 2^30, w*h <= 2^40)
+// @oblig totality only: no arithmetic overflow, division by zero or other panic in a checked build; counts are at least 1
+#[kani::proof]
+#[kani::unwind(6)]
+pub fn c01_frame_geometry_total_gss1() {
+    frame_geometry_total_case(1, 0);
+    frame_geometry_total_case(1, 1);
+    frame_geometry_total_case(1, 2);
+}
+
+// @prop C01
+// @tier quick
+// @unit jxl_frame::FrameHeader::{sample_width,sample_height,color_sample_width,num_groups,num_lf_groups,groups_per_row,lf_groups_per_row,group_size_for,lf_group_size_for,lf_group_idx_from_group_idx,group_idx_from_coord,is_group_collides_region,is_lf_group_collides_region}
+// @sym frame width,height in three boxes inside the limits Frame::parse enforces (2^20 x 2^20, 2^30 x 2^10, 2^10 x 2^30; area <= 2^40), upsampling {1,2,4,8}, lf_level 0..=4, group_size_shift 2 (one harness per group size: constant divisors), any group index below num_groups, any coordinates and regions below 2^30
+// @bound the three boxes (frames with w*h <= 2^40 outside them, e.g. 2^25 x 2^15, are not covered: the product bound itself is SAT-hard)
+// @assume the header satisfies the checks of Frame::parse (w,h <= 2^30, w*h <= 2^40)
+// @oblig totality only: no arithmetic overflow, division by zero or other panic in a checked build; counts are at least 1
+#[kani::proof]
+#[kani::unwind(6)]
+pub fn c01_frame_geometry_total_gss2() {
+    frame_geometry_total_case(2, 0);
+    frame_geometry_total_case(2, 1);
+    frame_geometry_total_case(2, 2);
+}
+
+// @prop C01
+// @tier quick
+// @unit jxl_frame::FrameHeader::{sample_width,sample_height,color_sample_width,num_groups,num_lf_groups,groups_per_row,lf_groups_per_row,group_size_for,lf_group_size_for,lf_group_idx_from_group_idx,group_idx_from_coord,is_group_collides_region,is_lf_group_collides_region}
+// @sym frame width,height in three boxes inside the limits Frame::parse enforces (2^20 x 2^20, 2^30 x 2^10, 2^10 x 2^30; area <= 2^40), upsampling {1,2,4,8}, lf_level 0..=4, group_size_shift 3 (one harness per group size: constant divisors), any group index below num_groups, any coordinates and regions below 2^30
+// @bound the three boxes (frames with w*h <= 2^40 outside them, e.g. 2^25 x 2^15, are not covered: the product bound itself is SAT-hard)
+// @assume the header satisfies the checks of Frame::parse (w,h <= 2^30, w*h <= 2^40)
+// @oblig totality only: no arithmetic overflow, division by zero or other panic in a checked build; counts are at least 1
+#[kani::proof]
+#[kani::unwind(6)]
+pub fn c01_frame_geometry_total_gss3() {
+    frame_geometry_total_case(3, 0);
+    frame_geometry_total_case(3, 1);
+    frame_geometry_total_case(3, 2);
+}
+
+fn frame_geometry_total_case(gss: u32, shape: u32) {
     let (ih, mut fh) = headers();
     let w: u32 = kani::any();
     let h: u32 = kani::any();
-    kani::assume(w >= 1 && h >= 1 && w <= 1 << 30 && h <= 1 << 30);
-    kani::assume((w as u64) * (h as u64) <= 1 << 40);
+    // the validated range w,h <= 2^30, w*h <= 2^40 is covered by three boxes (a product bound
+    // is SAT-hard): balanced 2^20 x 2^20, widest 2^30 x 2^10, tallest 2^10 x 2^30
+    let (wmax, hmax) = match shape {
+        0 => (1u32 << 20, 1u32 << 20),
+        1 => (1 << 30, 1 << 10),
+        _ => (1 << 10, 1 << 30),
+    };
+    kani::assume(w >= 1 && h >= 1 && w <= wmax && h <= hmax);
     fh.width = w;
     fh.height = h;
     let ulog: u32 = kani::any();
@@ -312,8 +369,6 @@ pub fn c01_frame_geometry_total() {
     let lf: u32 = kani::any();
     kani::assume(lf <= 4);
     fh.lf_level = lf;
-    let gss: u32 = kani::any();
-    kani::assume(gss <= 3);
     fh.group_size_shift = gss;
     let n = fh.num_groups();
     let nlf = fh.num_lf_groups();
@@ -332,8 +387,7 @@ pub fn c01_frame_geometry_total() {
     let _ = fh.group_idx_from_coord(x, y);
     let _ = fh.is_group_collides_region(g, (x, y, rw, rh));
     let _ = fh.is_lf_group_collides_region(lfg, (x, y, rw, rh));
-    kani::cover!(w == 1 << 30 && h == 1 << 10 && gss == 0, "largest allowed width, smallest groups");
-    kani::cover!(n > 1 << 25, "more than 2^25 groups");
+    kani::cover!(w == wmax && h == hmax && ulog == 0, "largest frame of the box");
     core::mem::forget(fh);
     core::mem::forget(ih);
 }
